@@ -195,17 +195,22 @@ def run(ctx, pid):
     stress_futs = [pool.submit(stress_one, k) for k in KINDS]
 
     # ------------------------------------------------------------------ 2b. capacity clause: fill phase without a consumer
-    def fill_one(kind, cap, doccap):
+    def fill_one(kind, cap, doccap, variant="fill"):
         with lock:
-            t = ctx.tmp("fill-%s.ndjson" % kind)
-        n = 400 if quick else 5000
-        ctx.run([exe, "stress", kind + "_fill", str(cap), "6", "4", str(n), str(ctx.seed * 777 + cap), t], timeout=1800)
+            t = ctx.tmp("%s-%s.ndjson" % (variant, kind))
+        if variant == "fill":      # 6 producers x 4 messages, the consumer starts only after the producers are done
+            n = 400 if quick else 5000
+            ctx.run([exe, "stress", kind + "_fill", str(cap), "6", "4", str(n), str(ctx.seed * 777 + cap), t], timeout=1800)
+        else:                      # churn: 8 producers retry rejected messages while a slow consumer frees one slot at a time
+            n = 30 if quick else 600
+            ctx.run([exe, "stress", kind + "_churn", str(cap), "8", "12", str(n), str(ctx.seed * 779 + cap), t], timeout=3000)
         with lock:
             cfg = ctx.tmp("CapMonitor_%s.cfg" % kind)
         with open(cfg, "w") as f:
             f.write("SPECIFICATION Spec\nCONSTANTS\n  Cap = %d\nCHECK_DEADLOCK FALSE\n" % doccap)
         name = os.path.basename(cfg)
-        r = ctx.tlc(SPEC, name, module="CapMonitor", dfs=True, files={"trace.ndjson": t, name: cfg}, timeout=3000, name="cap-" + kind)
+        r = ctx.tlc(SPEC, name, module="CapMonitor", dfs=True, files={"trace.ndjson": t, name: cfg}, timeout=3400, heap="10g",
+                    name="cap-%s-%s" % (variant, kind))
         nl = sum(1 for _ in open(t))
         if r.depth != nl + 1:
             raise vlib.Infra("CapMonitor consumed %d of %d lines (%s)" % (r.depth - 1, nl, kind))
@@ -215,6 +220,7 @@ def run(ctx, pid):
         return kind, n, mm, t
 
     fill_futs = [pool.submit(fill_one, k, c, d) for k, c, d in (("bprio", 3, 3), ("bstable", 3, 3), ("nbring", 3, 4))]
+    fill_futs += [pool.submit(fill_one, k, c, d, "churn") for k, c, d in (("bprio", 3, 3), ("bstable", 3, 3))]
 
     # ------------------------------------------------------------------ 3. spec -> code: Mpsc edge cover on four kinds
     d = f_dump_m.result()
@@ -296,7 +302,7 @@ def run(ctx, pid):
         kind, n, mm, t = fut.result()
         total["hist"] += n
         total["strict"] += n - len({m[0] for m in mm})
-        ctx.log("fill   %-8s: %d fill-phase histories (6 producers x 4, consumer starts afterwards), capacity mismatches %d" % (kind, n, len(mm)))
+        ctx.log("capacity %-8s: %d fill / churn histories judged by CapMonitor, mismatches %d" % (kind, n, len(mm)))
         if mm:
             rows = vlib.read_ndjson(t)
             ln = int(mm[0][0])
